@@ -3,6 +3,7 @@
 #include "rulesetgen.hpp"
 #include "samples.hpp"
 #include <atomic>
+#include <chrono>
 #include <fcntl.h>
 #include <sys/mman.h>
 #include <sys/stat.h>
@@ -465,7 +466,87 @@ static std::string match_limit_is_private(CaseInfo& ci)
   return failure;
 }
 
+// Three threads keep scanning (by path) a file that opens but cannot be mapped - every one of those scans
+// fails inside the library - while six threads keep scanning good files through path and descriptor entry
+// points.  The failing scans must not disturb the others: each good scan gives its reference result.
+static std::string failing_scans_are_private(CaseInfo& ci)
+{
+  if (!unmappable_path())
+  {
+    ci.desc = "no file on this system opens but refuses mmap: case skipped";
+    return "";
+  }
+  std::vector<SourceUnit> units = {SourceUnit{"default", fixed_rules(), YS_ADD_STRING}};
+  Rules R;
+  CompileResult cr = compile_units(units, R, gset_exts());
+  if (cr.errors || cr.rc)
+    return "fixed rule set rejected: " + cr.diag;
+  std::vector<bytes> bufs = {bytes("xx abc abbbcd abc yy"), g_samples.pe2.substr(0, 6000)};
+  ScanSpec bad;
+  bad.buf = 0;
+  bad.unmappable = true;
+  std::string ref_bad = one_scan(R.r, bufs, bad);
+  std::vector<ScanSpec> good(6);
+  std::vector<std::string> ref(6);
+  for (int t = 0; t < 6; t++)
+  {
+    good[t].buf = t % 2;
+    good[t].entry = t % 3 == 0 ? YS_SCAN_FD : YS_SCAN_FILE;
+    good[t].scanner = t >= 3;
+    ref[t] = one_scan(R.r, bufs, good[t]);
+  }
+  std::atomic<bool> go_flag{false}, stop{false};
+  std::string failure;
+  std::mutex mu;
+  long scans = 0;
+  std::vector<std::thread> th;
+  for (int t = 0; t < 3; t++)
+    th.emplace_back([&]() {
+      while (!go_flag.load()) std::this_thread::yield();
+      while (!stop.load())
+      {
+        std::string g = one_scan(R.r, bufs, bad);
+        if (g != ref_bad)
+        {
+          std::lock_guard<std::mutex> l(mu);
+          if (failure.empty())
+            failure = "the scan of the unmappable file reports something else than when run alone:\n--- alone\n" + ref_bad.substr(0, 300) +
+                      "--- concurrent\n" + g.substr(0, 300);
+        }
+      }
+    });
+  for (int t = 0; t < 6; t++)
+    th.emplace_back([&, t]() {
+      while (!go_flag.load()) std::this_thread::yield();
+      while (!stop.load())
+      {
+        std::string g = one_scan(R.r, bufs, good[t]);
+        std::lock_guard<std::mutex> l(mu);
+        scans++;
+        if (g != ref[t] && failure.empty())
+          failure = strf("a scan of a good file (%s entry point, thread %d) while other threads' file scans fail:\n--- alone\n%s--- concurrent\n%s",
+                         good[t].entry == YS_SCAN_FD ? "descriptor" : "path", t, ref[t].substr(0, 400).c_str(), g.substr(0, 400).c_str());
+      }
+    });
+  double t0 = now_s();
+  go_flag = true;
+  while (now_s() - t0 < 8.0)
+  {
+    std::this_thread::sleep_for(std::chrono::milliseconds(50));
+    std::lock_guard<std::mutex> l(mu);
+    if (!failure.empty())
+      break;
+  }
+  stop = true;
+  for (auto& t : th) t.join();
+  ci.desc = strf("3 threads scanning %s (cannot be mapped) + 6 threads scanning good files %ld times meanwhile", unmappable_path(), scans);
+  ci.sub_evals = (int) std::min<long>(scans, 1000000) + 1;
+  return failure;
+}
+
 std::vector<FixedCase> fixed_cases()
 {
-  return {{"timeouts-are-per-scan", timeouts_are_per_scan}, {"match-limit-is-private", match_limit_is_private}};
+  return {{"timeouts-are-per-scan", timeouts_are_per_scan},
+          {"match-limit-is-private", match_limit_is_private},
+          {"failing-scans-are-private", failing_scans_are_private}};
 }
